@@ -9,6 +9,7 @@ mod frontend;
 mod lang;
 mod layout;
 mod limits;
+mod mem;
 mod pipeline;
 mod pool;
 mod proc;
@@ -34,6 +35,7 @@ fn main() -> ExitCode {
         "lang" => lang::run(&args[2..]),
         "layout" => layout::run(&args[2..]),
         "limits" => limits::run(&args[2..]),
+        "mem" => mem::run(&args[2..]),
         "pipeline" => pipeline::run(&args[2..]),
         "pool" => pool::run(&args[2], &args[3]),
         "proc" => proc::run(&args[2], &args[3]),
